@@ -51,6 +51,10 @@ def run(ctx):
     from . import c07
     c07.r07_4(ctx, rep, roles, snd)
     ctx.report.rules[-1].id = "R14.6(R07.4)"
+    # "applies exactly the keys above its max version": for every member delta of the message, not only up to the first reset
+    from . import c20
+    c20.r20_2(ctx, rep, roles, app)
+    ctx.report.rules[-1].id = "R14.7(R20.2)"
 
 
 # ------------------------------------------------------------------------- R14.1
